@@ -504,6 +504,666 @@ pub fn misc(r: &mut Rng, n: usize, out: &mut Vec<String>) {
     }
 }
 
+
+// ------------------------------------------------------------------------------------------------
+// targeted streams for the property oracles (in-range arguments only)
+
+fn in_sample_rate(r: &mut Rng, hi: f64) -> f32 {
+    sample_rate(r, hi)
+}
+
+/// whole envelopes with constant (or once-changed) times, short enough to run to completion
+pub fn adsr_phase(r: &mut Rng, n: usize, out: &mut Vec<String>) {
+    let mut left = n as i64;
+    while left > 0 {
+        let sr = in_sample_rate(r, 192000.0);
+        out.push(format!("adsr new {}", b(sr)));
+        let ticks = |r: &mut Rng| -> f32 {
+            match r.below(8) {
+                0 => r.range(1, 8) as f32,
+                1 => (1u32 << r.range(0, 10)) as f32,
+                2 => (r.unit() * 3.0) as f32 + 0.2,
+                3 => r.range(1, 2000) as f32 + 0.5,
+                _ => r.log_uniform(1.0, 1500.0) as f32,
+            }
+        };
+        let (na, nd, nr) = (ticks(r), ticks(r), ticks(r));
+        let clampt = |t: f32| t.max(0.001).min(20.0);
+        let (ta, td, tr) = (clampt(na / sr), clampt(nd / sr), clampt(nr / sr));
+        out.push(format!("set a {}", b(ta)));
+        out.push(format!("set d {}", b(td)));
+        out.push(format!("set r {}", b(tr)));
+        out.push(format!("set s {}", level_in(r)));
+        let budget = |t: f32| ((t * sr) as usize).min(6000) + 4;
+        let cycles = r.range(1, 3);
+        for _ in 0..cycles {
+            out.push("gate_on".to_string());
+            let total = budget(ta) + budget(td) + r.range(0, 6) as usize;
+            let cut = if r.chance(1, 3) { r.below(total as u64) as usize } else { total };
+            let change_at = if r.chance(1, 4) { Some(r.below(cut.max(1) as u64) as usize) } else { None };
+            for k in 0..cut {
+                if Some(k) == change_at {
+                    let key = r.pick(&["a", "d", "s"]);
+                    if key == "s" {
+                        out.push(format!("set s {}", level_in(r)));
+                    } else {
+                        out.push(format!("set {} {}", key, b(clampt(ticks(r) / sr))));
+                    }
+                }
+                out.push("tick".to_string());
+            }
+            if r.chance(1, 5) {
+                continue; // retrigger without release
+            }
+            out.push("gate_off".to_string());
+            let total = budget(tr) + r.range(0, 4) as usize;
+            let cut = if r.chance(1, 4) { r.below(total as u64) as usize } else { total };
+            for _ in 0..cut {
+                out.push("tick".to_string());
+            }
+            left -= 1;
+        }
+        left -= (budget(ta) + budget(td) + budget(tr)) as i64;
+    }
+}
+
+fn level_in(r: &mut Rng) -> u32 {
+    match r.below(6) {
+        0 => b(0.0),
+        1 => b(1.0),
+        2 => b(f32::from_bits(b(1.0) - 1)),
+        3 => b(0.5),
+        _ => b(r.unit() as f32),
+    }
+}
+
+/// slow phases visited through the accumulator setter: every cell, smallest increments
+pub fn adsr_slow(r: &mut Rng, n: usize, out: &mut Vec<String>) {
+    let mut left = n as i64;
+    while left > 0 {
+        let sr = r.pick(&[192000.0f32, 48000.0, 96000.0, 44100.0]);
+        out.push(format!("adsr new {}", b(sr)));
+        let t = r.pick(&[20.0f32, 10.0, 5.0, 1.0]);
+        for k in ["a", "d", "r"] {
+            out.push(format!("set {} {}", k, b(t)));
+        }
+        out.push(format!("set s {}", level_in(r)));
+        for _ in 0..r.range(2, 5) {
+            // choose a phase: attack (gate_on), decay (force through), release
+            let which = r.below(3);
+            out.push("gate_on".to_string());
+            out.push("tick".to_string());
+            if which >= 1 {
+                out.push(format!("setacc {}", (1u32 << 24) - 1));
+                out.push("tick".to_string()); // -> decay
+            }
+            if which == 2 {
+                if r.chance(1, 2) {
+                    out.push(format!("setacc {}", r.below(1 << 24)));
+                    out.push("tick".to_string());
+                }
+                out.push("gate_off".to_string());
+                out.push("tick".to_string());
+            }
+            for _ in 0..r.range(3, 10) {
+                let acc = match r.below(5) {
+                    0 => ((r.range(1, 1023) << 14) - r.below(3)) as u32,
+                    1 => ((r.below(1024) << 14) + 16380) as u32,
+                    2 => (1u32 << 24) - 200 + r.below(150) as u32,
+                    _ => r.below(1 << 24) as u32,
+                };
+                out.push(format!("setacc {}", acc));
+                for _ in 0..r.range(2, 6) {
+                    out.push("tick".to_string());
+                    left -= 1;
+                }
+            }
+        }
+    }
+}
+
+/// LFO: smallest increments around every kind of position incl. the wrap, and ordinary runs through the wrap
+pub fn lfo_sweep(r: &mut Rng, n: usize, out: &mut Vec<String>) {
+    let mut left = n as i64;
+    while left > 0 {
+        let sr = in_sample_rate(r, 192000.0);
+        out.push(format!("lfo new {}", b(sr)));
+        for _ in 0..r.range(2, 6) {
+            let f = match r.below(6) {
+                0 => sr / (1u32 << 24) as f32 * r.range(1, 4) as f32,
+                1 => sr / (1u32 << r.range(4, 20)) as f32,
+                2 => (r.unit() as f32) * sr,
+                3 => sr / 4.0,
+                _ => r.log_uniform(0.01, 100.0) as f32,
+            };
+            out.push(format!("freq {}", b(f.min(sr))));
+            let acc = match r.below(6) {
+                0 => (1u32 << 24) - 1 - r.below(20) as u32,
+                1 => (r.below(1024) << 14) as u32 + r.below(3) as u32,
+                2 => ((r.below(1024) << 14) + 16383 - r.below(3)) as u32,
+                3 => (r.pick(&[1u32 << 22, 1 << 23, 3 << 22]) as i64 + r.range(0, 6) as i64 - 3) as u32,
+                4 => (1023u32 << 14) + r.below(16384) as u32,
+                _ => r.below(1 << 24) as u32,
+            };
+            if r.chance(1, 3) {
+                out.push(format!("phase {}", b(acc as f32 / 16777216.0 + r.pick(&[0.0f32, 1.0, 7.0, -3.0]))));
+            } else {
+                out.push(format!("setacc {}", acc));
+            }
+            for _ in 0..r.range(4, 40) {
+                out.push("tick".to_string());
+                left -= 1;
+            }
+        }
+    }
+}
+
+/// fresh quantizers: one conversion each, all scales, boundary lattice
+pub fn quant_fresh(r: &mut Rng, n: usize, out: &mut Vec<String>) {
+    for _ in 0..n / 3 + 1 {
+        out.push("quant new".to_string());
+        let mask = match r.below(6) {
+            0 => 0xfff,
+            1 => 1 << r.below(12),
+            2 => (1 << r.below(12)) | (1 << r.below(12)),
+            _ => r.range(1, 4095),
+        };
+        let forb: Vec<String> = (0..12).filter(|i| mask >> i & 1 == 0).map(|i| i.to_string()).collect();
+        if !forb.is_empty() {
+            out.push(format!("forbid {}", forb.join(" ")));
+        }
+        out.push(format!("convert {}", quant_input(r)));
+    }
+}
+
+/// conversion sequences on one scale: ramps, noise around boundaries, jumps; scale edits in between
+pub fn quant_hyst(r: &mut Rng, n: usize, out: &mut Vec<String>) {
+    let mut left = n as i64;
+    while left > 0 {
+        out.push("quant new".to_string());
+        if r.chance(1, 2) {
+            let mask = r.range(1, 4095);
+            let forb: Vec<String> = (0..12).filter(|i| mask >> i & 1 == 0).map(|i| i.to_string()).collect();
+            if !forb.is_empty() {
+                out.push(format!("forbid {}", forb.join(" ")));
+            }
+        }
+        for _ in 0..r.range(1, 4) {
+            match r.below(4) {
+                0 => {
+                    // slow ramp up or down
+                    let mut v = (r.unit() * 10.0) as f32;
+                    let dv = (r.log_uniform(1e-4, 0.05) as f32) * if r.chance(2, 3) { 1.0 } else { -1.0 };
+                    for _ in 0..r.range(10, 60) {
+                        out.push(format!("convert {}", b(v)));
+                        v += dv;
+                        left -= 1;
+                    }
+                }
+                1 => {
+                    // noise smaller than the hysteresis around a boundary
+                    let k = r.range(1, 120) as f32;
+                    let amp = (r.unit() as f32) * 0.0082;
+                    for _ in 0..r.range(10, 40) {
+                        let v = k / 12.0 + ((r.unit() * 2.0 - 1.0) as f32) * amp;
+                        out.push(format!("convert {}", b(v)));
+                        left -= 1;
+                    }
+                }
+                2 => {
+                    // settle, edit the scale, convert the same input again
+                    let v = quant_input(r);
+                    out.push(format!("convert {}", v));
+                    let op = if r.chance(2, 3) { "forbid" } else { "allow" };
+                    out.push(format!("{} {}", op, note_list(r)).trim_end().to_string());
+                    out.push(format!("convert {}", v));
+                    out.push(format!("convert {}", v.wrapping_add(r.below(2000) as u32)));
+                    left -= 3;
+                }
+                _ => {
+                    for _ in 0..r.range(3, 12) {
+                        out.push(format!("convert {}", quant_input(r)));
+                        left -= 1;
+                    }
+                }
+            }
+        }
+    }
+}
+
+/// step responses from a settled state for (fs, t) pairs with a manageable number of samples
+pub fn glide_step(r: &mut Rng, n: usize, out: &mut Vec<String>) {
+    let mut left = n as i64;
+    while left > 0 {
+        let sr = in_sample_rate(r, 48000.0);
+        out.push(format!("glide new {}", b(sr)));
+        let t = match r.below(8) {
+            0 => 0.0f32,
+            1 => 1.5 / sr,
+            2 => r.log_uniform(10.0, 1000.0) as f32,
+            3 => 10.0,
+            _ => (r.log_uniform(100.0, 4000.0) as f32 / sr).min(10.0),
+        };
+        let nn = ((t.min(10.0) * sr) as usize).min(120_000);
+        if nn > 8000 && !(sr <= 400.0) {
+            continue;
+        }
+        out.push(format!("time {}", b(t)));
+        let base = if r.chance(1, 2) { 0.0 } else { (r.unit() * 8.0 - 4.0) as f32 };
+        // settle on the base level with the fastest setting, then select t again
+        if base != 0.0 {
+            out.push(format!("time {}", b(0.0)));
+            for _ in 0..12 {
+                out.push(format!("proc {}", b(base)));
+            }
+            out.push(format!("time {}", b(t)));
+        } else {
+            for _ in 0..3 {
+                out.push(format!("proc {}", b(0.0)));
+            }
+        }
+        let target = base + (r.unit() * 8.0 - 4.0) as f32 + 0.5;
+        for _ in 0..nn + 12 {
+            out.push(format!("proc {}", b(target)));
+        }
+        left -= nn as i64 + 20;
+        // dead-band probes
+        for _ in 0..r.range(0, 4) {
+            let t2 = t + r.pick(&[0.01f32, 0.049, 0.051, -0.03, 0.2, -0.2, 3.0]);
+            if t2 >= 0.0 {
+                out.push(format!("time {}", b(t2)));
+                out.push(format!("proc {}", b(target)));
+            }
+        }
+    }
+}
+
+/// piecewise-constant inputs with set_time switches anywhere (all in [0, 10])
+pub fn glide_sched(r: &mut Rng, n: usize, out: &mut Vec<String>) {
+    let mut left = n as i64;
+    while left > 0 {
+        let sr = in_sample_rate(r, 48000.0);
+        out.push(format!("glide new {}", b(sr)));
+        let mut x = (r.unit() * 10.0 - 5.0) as f32;
+        for _ in 0..r.range(3, 12) {
+            let t = match r.below(7) {
+                0 => 0.0f32,
+                1 => 2.0 / sr,
+                2 => (r.unit() * 4.0) as f32 / sr,
+                3 => 10.0,
+                4 => (r.unit() * 10.0) as f32,
+                _ => r.log_uniform(0.001, 1.0) as f32,
+            };
+            out.push(format!("time {}", b(t)));
+            for _ in 0..r.range(1, 4) {
+                match r.below(4) {
+                    0 => x = (r.unit() * 10.0 - 5.0) as f32,
+                    1 => x = -x,
+                    _ => {}
+                }
+                for _ in 0..r.range(2, 30) {
+                    out.push(format!("proc {}", b(x)));
+                    left -= 1;
+                }
+            }
+        }
+    }
+}
+
+/// ribbon with helper-sized buffers and sensible resistors: taps, glitches, multi-level presses
+pub fn ribbon_taps(r: &mut Rng, n: usize, out: &mut Vec<String>) {
+    let rates: [(f32, usize); 6] = [(100.0, 2), (1000.0, 18), (4000.0, 69), (10000.0, 171), (22050.0, 375), (44100.0, 750)];
+    let mut left = n as i64;
+    while left > 0 {
+        let k = if r.chance(1, 6) { 6 } else { 4 };
+        let (sr, cap) = r.pick(&rates[..k]);
+        let (sp, dr, pu) = match r.below(4) {
+            0 => (20e3f32, 820.0f32, 1e6f32),
+            1 => (10e3, 100.0, 10.1e3),
+            2 => (r.log_uniform(5e3, 1e5) as f32, r.log_uniform(10.0, 2e3) as f32, r.log_uniform(2e5, 1e7) as f32),
+            _ => (20e3, 820.0, 30e3),
+        };
+        out.push(format!("ribbon new {} {} {} {} {}", cap, b(sr), b(sp), b(dr), b(pu)));
+        let boundary = 1.0 - (dr / (dr + sp));
+        let need = cap + (sr as usize) / 1000;
+        for _ in 0..r.range(3, 9) {
+            let run = match r.below(7) {
+                0 => 1,
+                1 => r.range(1, 6) as usize,
+                2 => need - 1,
+                3 => need,
+                4 => need + 1,
+                5 => r.range(1, need as u64) as usize,
+                _ => need + r.range(1, need as u64) as usize,
+            };
+            let mut pos = (r.unit() as f32) * boundary * 0.98;
+            let ramp = if r.chance(1, 3) { ((r.unit() - 0.5) as f32) * 0.5 / need as f32 } else { 0.0 };
+            for k in 0..run {
+                if r.chance(1, 60) {
+                    pos = (r.unit() as f32) * boundary * 0.98;
+                }
+                pos = (pos + ramp).max(0.0).min(boundary * 0.999);
+                let _ = k;
+                out.push(format!("poll {}", b(pos)));
+                left -= 1;
+                if r.chance(1, 50) {
+                    out.push(r.pick(&["jp", "jr"]).to_string());
+                }
+            }
+            for _ in 0..r.pick(&[1usize, 1, 1, 2, 3, 25]) {
+                out.push(format!("poll {}", b(r.pick(&[1.0f32, 0.99, boundary, boundary + 0.001]))));
+                left -= 1;
+            }
+            if r.chance(2, 3) {
+                out.push("jp".to_string());
+                out.push("jr".to_string());
+                if r.chance(1, 3) {
+                    out.push("jr".to_string());
+                    out.push("jp".to_string());
+                }
+            }
+        }
+    }
+}
+
+/// note traffic on the listened channel with polls and mode switches
+pub fn midi_notes(r: &mut Rng, n: usize, out: &mut Vec<String>) {
+    let mut left = n as i64;
+    while left > 0 {
+        let ch = r.below(16);
+        out.push(format!("midi new {}", ch));
+        let mut held: Vec<u64> = Vec::new();
+        let few = r.chance(2, 3);
+        for _ in 0..r.range(10, 150) {
+            let c = r.below(100);
+            let mut bytes: Vec<u64> = Vec::new();
+            if c < 35 {
+                let note = if few { r.range(58, 66) } else { r.below(128) };
+                if held.len() < 30 || r.chance(1, 20) {
+                    held.push(note);
+                    bytes.extend([0x90 + ch, note, r.range(1, 127)]);
+                }
+            } else if c < 60 {
+                let note = if !held.is_empty() && r.chance(5, 6) { r.pick(&held[..]) } else { r.range(56, 70) };
+                held.retain(|x| *x != note);
+                if r.chance(1, 2) {
+                    bytes.extend([0x80 + ch, note, r.below(128)]);
+                } else {
+                    bytes.extend([0x90 + ch, note, 0]);
+                }
+            } else if c < 65 {
+                held.clear();
+                bytes.extend([0xB0 + ch, 123, 0]);
+            } else if c < 70 {
+                bytes.extend([0x90 + (ch + 1) % 16, r.below(128), r.below(128)]);
+            } else if c < 80 {
+                out.push("rising".to_string());
+            } else if c < 90 {
+                out.push("falling".to_string());
+            } else if c < 95 {
+                out.push(format!("retrig {}", r.below(2)));
+            } else {
+                out.push(format!("prio {}", r.below(3)));
+            }
+            for by in bytes {
+                if r.chance(1, 12) {
+                    out.push(format!("byte {}", r.pick(&[0xF8u64, 0xFE, 0xFA])));
+                }
+                out.push(format!("byte {}", by));
+                left -= 1;
+            }
+            left -= 1;
+        }
+    }
+}
+
+/// controllers and pitch bend
+pub fn midi_cc(r: &mut Rng, n: usize, out: &mut Vec<String>) {
+    let mut left = n as i64;
+    while left > 0 {
+        let ch = r.below(16);
+        out.push(format!("midi new {}", ch));
+        for _ in 0..r.range(10, 120) {
+            let chan = if r.chance(5, 6) { ch } else { r.below(16) };
+            let bytes: Vec<u64> = match r.below(10) {
+                0 | 1 | 2 | 3 => {
+                    let x = r.below(128);
+                    let cc = r.pick(&[1, 7, 71, 74, 5, 65, 64, 121, 123, 0, 2, 6, 8, 63, 66, 70, 72, 73, 75, 120, 122, x]);
+                    let y = r.below(128);
+                    vec![0xB0 + chan, cc, r.pick(&[0, 1, 63, 64, 65, 126, 127, y])]
+                }
+                4 | 5 | 6 => {
+                    let (x, y) = (r.below(128), r.below(128));
+                    vec![0xE0 + chan, r.pick(&[0, 1, 127, x]), r.pick(&[0, 63, 64, 65, 127, y])]
+                }
+                7 => vec![0x90 + chan, r.below(128), r.below(128)],
+                8 => vec![0xB0 + chan, 121, r.below(128)],
+                _ => vec![r.below(256)],
+            };
+            for by in bytes {
+                out.push(format!("byte {}", by));
+                left -= 1;
+            }
+        }
+    }
+}
+
+/// exhaustive finite domains (thorough tier)
+pub fn midi_cc_all(ch: u64, out: &mut Vec<String>) {
+    out.push(format!("midi new {}", ch));
+    out.push(format!("byte {}", 0xB0 + ch));
+    for cc in 0..128u64 {
+        for v in 0..128u64 {
+            // All-Notes-Off / reset interleaved by the sweep itself (cc 121, 123)
+            out.push(format!("byte {}", cc));
+            out.push(format!("byte {}", v));
+        }
+    }
+    out.push(format!("byte {}", 0xE0 + ch));
+    for v in 0..16384u64 {
+        out.push(format!("byte {}", v % 128));
+        out.push(format!("byte {}", v / 128));
+    }
+}
+
+pub fn misc_all(out: &mut Vec<String>) {
+    for n in 0..256 {
+        out.push(format!("notenew {}", n));
+    }
+    for c in 0..256 {
+        out.push(format!("midi new {}", c));
+    }
+    for s in SPECIALS {
+        out.push(format!("tp {}", s));
+        out.push(format!("sl {}", s));
+    }
+    // every binade boundary and the clamp bounds +- a few ulps
+    for e in 0..256u32 {
+        for m in [0u32, 1, 0x7f_ffff] {
+            for sgn in [0u32, 1] {
+                let bits = (sgn << 31) | (e << 23) | m;
+                out.push(format!("tp {}", bits));
+                out.push(format!("sl {}", bits));
+            }
+        }
+    }
+    for base in [b(0.001), b(20.0), b(0.0), b(1.0)] {
+        for d in 0..8u32 {
+            out.push(format!("tp {}", base.wrapping_add(d).wrapping_sub(4)));
+            out.push(format!("sl {}", base.wrapping_add(d).wrapping_sub(4)));
+        }
+    }
+}
+
+/// in-range streams for C17 (documented ranges only; any PANIC is a violation)
+pub fn adsr_in(r: &mut Rng, n: usize, out: &mut Vec<String>) {
+    let mut left = n;
+    while left > 0 {
+        let sr = match r.below(4) {
+            0 => 100.0,
+            1 => 192000.0,
+            _ => in_sample_rate(r, 192000.0),
+        };
+        out.push(format!("adsr new {}", b(sr)));
+        let seg = (r.range(20, 300) as usize).min(left);
+        left -= seg;
+        for _ in 0..seg {
+            let c = r.below(100);
+            let finite = |r: &mut Rng| loop {
+                let x = any_f32_bits(r);
+                if f32::from_bits(x).is_finite() {
+                    return x;
+                }
+            };
+            out.push(if c < 55 {
+                "tick".to_string()
+            } else if c < 65 {
+                "gate_on".to_string()
+            } else if c < 72 {
+                "gate_off".to_string()
+            } else if c < 90 {
+                format!("set {} {}", r.pick(&["a", "d", "r", "s"]), finite(r))
+            } else {
+                format!("set {} {}", r.pick(&["a", "d", "r"]), adsr_time(r, sr))
+            });
+        }
+    }
+}
+
+pub fn lfo_in(r: &mut Rng, n: usize, out: &mut Vec<String>) {
+    let mut left = n;
+    while left > 0 {
+        let sr = match r.below(4) {
+            0 => 100.0,
+            1 => 192000.0,
+            _ => in_sample_rate(r, 192000.0),
+        };
+        out.push(format!("lfo new {}", b(sr)));
+        let seg = (r.range(20, 300) as usize).min(left);
+        left -= seg;
+        for _ in 0..seg {
+            let c = r.below(100);
+            out.push(if c < 50 {
+                "tick".to_string()
+            } else if c < 70 {
+                let f = match r.below(5) {
+                    0 => 0.0,
+                    1 => sr,
+                    2 => f32::from_bits(r.below(1 << 23) as u32),
+                    _ => (r.unit() as f32) * sr,
+                };
+                format!("freq {}", b(f.min(sr)))
+            } else if c < 75 {
+                "reset".to_string()
+            } else {
+                let p = loop {
+                    let x = any_f32_bits(r);
+                    if f32::from_bits(x).is_finite() {
+                        break x;
+                    }
+                };
+                format!("phase {}", p)
+            });
+        }
+    }
+}
+
+pub fn glide_in(r: &mut Rng, n: usize, out: &mut Vec<String>) {
+    let mut left = n;
+    while left > 0 {
+        let sr = match r.below(4) {
+            0 => 100.0,
+            1 => 48000.0,
+            _ => in_sample_rate(r, 48000.0),
+        };
+        out.push(format!("glide new {}", b(sr)));
+        let seg = (r.range(10, 200) as usize).min(left);
+        left -= seg;
+        for _ in 0..seg {
+            if r.chance(1, 4) {
+                let t = match r.below(6) {
+                    0 => 0.0f32,
+                    1 => f32::from_bits(r.below(0x7f80_0000) as u32), // any non-negative finite
+                    2 => f32::MAX,
+                    3 => f32::from_bits(1),
+                    _ => r.log_uniform(1e-6, 100.0) as f32,
+                };
+                out.push(format!("time {}", b(t)));
+            } else {
+                out.push(format!("proc {}", b((r.unit() * 20.0 - 10.0) as f32)));
+            }
+        }
+    }
+}
+
+pub fn ribbon_in(r: &mut Rng, n: usize, out: &mut Vec<String>) {
+    let rates: [(f32, usize); 8] =
+        [(100.0, 2), (1000.0, 18), (4000.0, 69), (10000.0, 171), (22050.0, 375), (44100.0, 750), (48000.0, 817), (192000.0, 3265)];
+    let mut left = n as i64;
+    while left > 0 {
+        let (sr, cap) = r.pick(&rates);
+        let (sp, dr, pu) = match r.below(3) {
+            0 => (20e3f32, 820.0f32, 1e6f32),
+            1 => (10e3, 1.0, 1e12),
+            _ => (r.log_uniform(1e3, 1e5) as f32, r.log_uniform(1.0, 1e4) as f32, r.log_uniform(1e5, 1e7) as f32),
+        };
+        out.push(format!("ribbon new {} {} {} {} {}", cap, b(sr), b(sp), b(dr), b(pu)));
+        let seg = cap * 3 + 50;
+        let mut x = r.unit() as f32;
+        for _ in 0..seg {
+            match r.below(30) {
+                0 => x = r.unit() as f32,
+                1 => x = 1.0,
+                2 => x = 0.0,
+                3 => x = f32::from_bits(r.below(b(1.0) as u64 + 1) as u32),
+                _ => {}
+            }
+            out.push(format!("poll {}", b(x)));
+            if r.chance(1, 30) {
+                out.push(r.pick(&["jp", "jr"]).to_string());
+            }
+        }
+        left -= seg as i64;
+    }
+}
+
+pub fn quant_any(r: &mut Rng, n: usize, out: &mut Vec<String>) {
+    let mut left = n;
+    while left > 0 {
+        out.push("quant new".to_string());
+        let seg = (r.range(5, 80) as usize).min(left);
+        left -= seg;
+        for _ in 0..seg {
+            let c = r.below(100);
+            out.push(if c < 70 {
+                format!("convert {}", if r.chance(1, 2) { any_f32_bits(r) } else { quant_input(r) })
+            } else if c < 85 {
+                let l = note_list(r);
+                if l.is_empty() { "convert 0".to_string() } else { format!("forbid {}", l) }
+            } else {
+                format!("allow {}", note_list(r)).trim_end().to_string()
+            });
+        }
+    }
+}
+
+pub fn midi_bytes(r: &mut Rng, n: usize, out: &mut Vec<String>) {
+    let mut left = n;
+    while left > 0 {
+        out.push(format!("midi new {}", r.below(256)));
+        let seg = (r.range(50, 600) as usize).min(left);
+        left -= seg;
+        let biased = r.chance(1, 2);
+        for _ in 0..seg {
+            let by = if biased && r.chance(1, 3) { r.range(0x80, 0xFF) } else { r.below(256) };
+            out.push(format!("byte {}", by));
+            if r.chance(1, 20) {
+                out.push(r.pick(&["rising", "falling"]).to_string());
+            }
+        }
+    }
+}
+
 pub fn stream(name: &str, seed: u64, n: usize) -> Vec<String> {
     let mut r = Rng::new(seed.wrapping_mul(0x100_0000_01B3) ^ name.bytes().fold(0u64, |a, c| a.wrapping_mul(131) + c as u64));
     let mut out = Vec::with_capacity(n + 16);
@@ -516,6 +1176,24 @@ pub fn stream(name: &str, seed: u64, n: usize) -> Vec<String> {
         "ribbon" => ribbon(&mut r, n, &mut out),
         "fop" => fop(&mut r, n, &mut out),
         "misc" => misc(&mut r, n, &mut out),
+        "adsr_phase" => adsr_phase(&mut r, n, &mut out),
+        "adsr_slow" => adsr_slow(&mut r, n, &mut out),
+        "lfo_sweep" => lfo_sweep(&mut r, n, &mut out),
+        "quant_fresh" => quant_fresh(&mut r, n, &mut out),
+        "quant_hyst" => quant_hyst(&mut r, n, &mut out),
+        "glide_step" => glide_step(&mut r, n, &mut out),
+        "glide_sched" => glide_sched(&mut r, n, &mut out),
+        "ribbon_taps" => ribbon_taps(&mut r, n, &mut out),
+        "midi_notes" => midi_notes(&mut r, n, &mut out),
+        "midi_cc" => midi_cc(&mut r, n, &mut out),
+        "midi_cc_all" => midi_cc_all(seed % 16, &mut out),
+        "misc_all" => misc_all(&mut out),
+        "adsr_in" => adsr_in(&mut r, n, &mut out),
+        "lfo_in" => lfo_in(&mut r, n, &mut out),
+        "glide_in" => glide_in(&mut r, n, &mut out),
+        "ribbon_in" => ribbon_in(&mut r, n, &mut out),
+        "quant_any" => quant_any(&mut r, n, &mut out),
+        "midi_bytes" => midi_bytes(&mut r, n, &mut out),
         _ => panic!("unknown stream {}", name),
     }
     out
